@@ -66,16 +66,16 @@ type SpecFun struct {
 type specParam struct{ Name, Typ string }
 
 type Axiom struct {
-	Name    string
-	Params  []specParam
-	Trigger string // spec function name whose ground applications instantiate this axiom
+	Name     string
+	Params   []specParam
+	Trigger  string   // spec function name whose ground applications instantiate this axiom
 	TrigArgs []string // argument names of the trigger application, in order
-	Body    ast.Expr
-	Src     string
-	Lemma   bool
-	Induct  string   // induction variable (lemmas)
-	Req     ast.Expr // lemma hypothesis (may be nil)
-	Props   []string
+	Body     ast.Expr
+	Src      string
+	Lemma    bool
+	Induct   string   // induction variable (lemmas)
+	Req      ast.Expr // lemma hypothesis (may be nil)
+	Props    []string
 }
 
 type ContractSet struct {
